@@ -2961,41 +2961,43 @@ impl Context {
             }
             Expr::If(cond, then, else_) => {
                 let (c, _, state_c) = self.eval_expr(*cond);
+                // Both arms must start from the same state cursor, so the pending state
+                // offset is flushed before branching.
+                self.consume_and_insert_pushoffset();
+                let base_push_sum = self.get_ctxdata().push_sum;
                 let cond_bidx = self.get_ctxdata().current_bb;
 
                 // This is just a placeholder. At this point, the locations of
                 // the block are not determined yet. These 0s will be
                 // overwritten later.
                 let _ = self.push_inst(Instruction::JmpIf(c, 0, 0, 0));
-                //todo: state offset for branches
+                // Every stateful call site owns its own cells: the cells of the then arm are
+                // followed by the cells of the else arm. The then arm ends by skipping the else
+                // arm's cells and the else arm starts by skipping the then arm's cells, so that
+                // both arms leave the state cursor at the same position.
                 //insert then block
                 let then_bidx = cond_bidx + 1;
                 let (t, _, state_t) = self.eval_block(Some(*then));
+                self.consume_and_insert_pushoffset();
+                let then_last_bidx = self.get_ctxdata().current_bb;
+                let then_size = state_t.iter().map(|s| s.total_size()).sum::<u64>();
                 //jmp to ret is inserted in bytecodegen
                 //insert else block
                 let else_bidx = self.get_ctxdata().current_bb + 1;
+                self.get_ctxdata().push_sum = base_push_sum;
+                self.get_ctxdata().next_state_offset = (then_size > 0).then_some(then_size);
                 let (e, _, state_e) = self.eval_block(*else_);
-                let then_size = state_t.iter().map(|s| s.total_size()).sum::<u64>();
+                self.consume_and_insert_pushoffset();
                 let else_size = state_e.iter().map(|s| s.total_size()).sum::<u64>();
-                let branch_state = match then_size.cmp(&else_size) {
-                    std::cmp::Ordering::Greater => {
-                        let elseb = self.get_current_fn().body.get_mut(else_bidx).unwrap();
-                        elseb.0.push((
-                            Arc::new(Value::None),
-                            Instruction::PushStateOffset(then_size - else_size),
-                        ));
-                        state_t.clone()
-                    }
-                    std::cmp::Ordering::Less => {
-                        let thenb = self.get_current_fn().body.get_mut(then_bidx).unwrap();
-                        thenb.0.push((
-                            Arc::new(Value::None),
-                            Instruction::PushStateOffset(else_size - then_size),
-                        ));
-                        state_e.clone()
-                    }
-                    std::cmp::Ordering::Equal => state_t.clone(),
-                };
+                if else_size > 0 {
+                    let thenb = self.get_current_fn().body.get_mut(then_last_bidx).unwrap();
+                    thenb.0.push((
+                        Arc::new(Value::None),
+                        Instruction::PushStateOffset(else_size),
+                    ));
+                }
+                self.get_ctxdata().push_sum = base_push_sum + then_size + else_size;
+                let branch_state = [state_t, state_e].concat();
                 //insert return block
                 self.add_new_basicblock();
                 let res = self.push_inst(Instruction::Phi(t, e));
